@@ -69,7 +69,7 @@ type world struct {
 	chain   *pki.Chain
 }
 
-const fixtureVersion = "c12-fixture-6"
+const fixtureVersion = "c12-fixture-7"
 
 // loadOrBuildWorld reuses the fixture of an earlier run while it is younger than 12 h, so that
 // the case list (byte offsets, lengths) and the class histogram are the same from run to run:
@@ -272,7 +272,7 @@ func buildWorld() *world {
 	// ---- documents
 	w.Docs["oci-policy"] = []byte(`{"version":"1.0","trustPolicies":[{"name":"p","registryScopes":["reg.io/r","reg.io/other"],"signatureVerification":{"level":"strict","override":{"revocation":"log"},"verifyTimestamp":"afterCertExpiry"},"trustStores":["ca:s"],"trustedIdentities":["x509.subject:C=US,ST=WA,O=Verif"]},{"name":"rest","registryScopes":["*"],"signatureVerification":{"level":"skip"}}]}`)
 	w.Docs["blob-policy"] = []byte(`{"version":"1.0","trustPolicies":[{"name":"p","signatureVerification":{"level":"strict","override":{"revocation":"skip"},"verifyTimestamp":"always"},"trustStores":["ca:s"],"trustedIdentities":["x509.subject:C=US,ST=WA,O=Verif"]},{"name":"g","signatureVerification":{"level":"audit"},"trustStores":["ca:s"],"trustedIdentities":["*"],"globalPolicy":true},{"name":"s","signatureVerification":{"level":"skip"}}]}`)
-	w.Docs["signingkeys"] = []byte(`{"default":"k1","keys":[{"name":"k1","keyPath":"/k/k1.key","certPath":"/k/k1.crt"},{"name":"k2","id":"kid","pluginName":"p","pluginConfig":{"a":"b"}}]}`)
+	w.Docs["signingkeys"] = []byte(`{"default":"k1","keys":[{"name":"k1","keyPath":"/k/k1.key","certPath":"/k/k1.crt"},{"name":"k2","id":"kid","pluginName":"p","pluginConfig":{"a":"b"}},{"name":"k3","keyPath":"/k/k3.key","certPath":"/k/k3.crt"}]}`)
 	w.Docs["config"] = []byte(`{"insecureRegistries":["localhost:5000"],"credsStore":"pass","credHelpers":{"reg.io":"helper"},"signatureFormat":"cose"}`)
 	issuer := w.chain.Certs[1]
 	w.CRLIssuer = issuer.Cert.Raw
